@@ -300,47 +300,6 @@ pub fn compare(prog: &Program, pred: &Predicted, obs: &Observed) -> Option<(Stri
     if obs.log.clock != want_clock {
         return Some(("tick_count/clock".into(), format!("per-tick clock observed ticks {:?}, expected 0..{total_ticks}", obs.log.clock)));
     }
-    // sinks: group by (tick, sink)
-    let mut got: BTreeMap<(u64, usize), Vec<It>> = BTreeMap::new();
-    for &(id, tick, x) in &obs.log.sink {
-        got.entry((tick, id)).or_default().push(x);
-    }
-    let mut got_insp: BTreeMap<(u64, usize), Vec<It>> = BTreeMap::new();
-    for &(id, tick, x) in &obs.log.inspect {
-        got_insp.entry((tick, id)).or_default().push(x);
-    }
-    for ticks in &pred.steps {
-        for to in ticks {
-            for (sid, want) in to.sinks.iter().enumerate() {
-                let g = got.remove(&(to.tick, sid)).unwrap_or_default();
-                match prog.sink_order[sid] {
-                    Order::Seq => {
-                        if &g != want {
-                            let kind = if multiset(&g) == multiset(want) { "order" } else { "items" };
-                            return Some((
-                                format!("tick_output/{kind}"),
-                                format!("tick {} sink {sid} (ordered): got {:?}, expected {:?}", to.tick, g, want),
-                            ));
-                        }
-                    }
-                    Order::Bag => {
-                        if multiset(&g) != multiset(want) {
-                            return Some((
-                                "tick_output/items".into(),
-                                format!("tick {} sink {sid} (multiset): got {:?}, expected {:?}", to.tick, g, want),
-                            ));
-                        }
-                    }
-                }
-            }
-            for (iid, want) in to.inspects.iter().enumerate() {
-                let g = got_insp.remove(&(to.tick, iid)).unwrap_or_default();
-                if multiset(&g) != multiset(want) {
-                    return Some(("tick_output/inspect".into(), format!("tick {} inspect {iid}: got {:?}, expected {:?}", to.tick, g, want)));
-                }
-            }
-        }
-    }
     // references (C25): per tick and referenced handoff, closures of an earlier access group run
     // (for all their items) before any closure of a later group, and each sees the settled value
     let mut got_refs: BTreeMap<(u64, usize), Vec<(u32, It, Vec<It>)>> = BTreeMap::new();
@@ -381,6 +340,47 @@ pub fn compare(prog: &Program, pred: &Predicted, obs: &Observed) -> Option<(Stri
     }
     if let Some(((tick, rid), v)) = got_refs.into_iter().next() {
         return Some(("reference/unexpected_tick".into(), format!("reference {rid} was read in tick {tick}, which was not predicted to run: {v:?}")));
+    }
+    // sinks: group by (tick, sink)
+    let mut got: BTreeMap<(u64, usize), Vec<It>> = BTreeMap::new();
+    for &(id, tick, x) in &obs.log.sink {
+        got.entry((tick, id)).or_default().push(x);
+    }
+    let mut got_insp: BTreeMap<(u64, usize), Vec<It>> = BTreeMap::new();
+    for &(id, tick, x) in &obs.log.inspect {
+        got_insp.entry((tick, id)).or_default().push(x);
+    }
+    for ticks in &pred.steps {
+        for to in ticks {
+            for (sid, want) in to.sinks.iter().enumerate() {
+                let g = got.remove(&(to.tick, sid)).unwrap_or_default();
+                match prog.sink_order[sid] {
+                    Order::Seq => {
+                        if &g != want {
+                            let kind = if multiset(&g) == multiset(want) { "order" } else { "items" };
+                            return Some((
+                                format!("tick_output/{kind}"),
+                                format!("tick {} sink {sid} (ordered): got {:?}, expected {:?}", to.tick, g, want),
+                            ));
+                        }
+                    }
+                    Order::Bag => {
+                        if multiset(&g) != multiset(want) {
+                            return Some((
+                                "tick_output/items".into(),
+                                format!("tick {} sink {sid} (multiset): got {:?}, expected {:?}", to.tick, g, want),
+                            ));
+                        }
+                    }
+                }
+            }
+            for (iid, want) in to.inspects.iter().enumerate() {
+                let g = got_insp.remove(&(to.tick, iid)).unwrap_or_default();
+                if multiset(&g) != multiset(want) {
+                    return Some(("tick_output/inspect".into(), format!("tick {} inspect {iid}: got {:?}, expected {:?}", to.tick, g, want)));
+                }
+            }
+        }
     }
     if let Some(((tick, sid), v)) = got.into_iter().next() {
         return Some(("tick_output/unexpected_tick".into(), format!("sink {sid} received {v:?} in tick {tick}, which was not predicted to run")));
